@@ -452,11 +452,19 @@ impl<'r> G<'r> {
                 1 => c(CardBody::Array(vec![Card::read_var(pv.clone())])),
                 _ => self.str_lit(),
             };
-            let keyfn = c(CardBody::Closure(Box::new(Function {
-                arguments: vec![pk, pv],
-                cards: vec![Card::return_card(fresh)],
-            })));
+            // sometimes the key function first replaces the row it was called for (the long table
+            // is also reachable through a global of the same name): the old value then lives only
+            // in the native's private copy of the table
+            let mut cards = vec![];
             let t = long.unwrap();
+            if self.rng.chance(1, 2) {
+                if let CardBody::ReadVar(name) = &t.body {
+                    let replacement = self.str_lit();
+                    cards.push(Card::set_property(replacement, Card::read_var(format!("g_{name}")), Card::read_var(pk.clone())));
+                }
+            }
+            cards.push(Card::return_card(fresh));
+            let keyfn = c(CardBody::Closure(Box::new(Function { arguments: vec![pk, pv], cards })));
             let name = ["std.sorted_by_key", "std.min_by_key", "std.max_by_key"][self.rng.usize(3)];
             return Card::call_function(name, vec![keyfn, t]);
         }
@@ -731,6 +739,7 @@ impl<'r> G<'r> {
             let name = format!("lt{idx}");
             let arr = self.long_array();
             f.cards.push(Card::set_var(name.clone(), arr));
+            f.cards.push(Card::set_global_var(format!("g_{name}"), Card::read_var(name.clone())));
             scope.push(Var { name, ty: Ty::Table, assignable: false });
         }
         let n = if sig.leaf { self.rng.usize(3) } else { 1 + self.rng.usize(self.cfg.max_stmts) };
